@@ -21,6 +21,15 @@ def scenario(rng, again=None):
     sc = dict(msgs=msgs, hook=rng.choice(('none', 'none', 'sending', 'received', 'error', 'all')),
               stalls=rng.choice((0, 0, 1, 2)), drops=rng.choice((0, 0, 0, 1)), seed=rng.randrange(10 ** 9),
               put_hook=rng.random() < 0.3, order=rng.choice((1, 7)))
+    if rng.random() < 0.1:
+        # an unanswered message whose time-to-live runs out while the link is down (connection lost shortly before, the first
+        # reconnection attempt refused): the first request sent afterwards is the bind request of the new connection
+        t0 = round(rng.uniform(0.5, 2.0), 3)
+        t_drop = round(t0 + TTL - rng.uniform(0.2, 0.9), 3) + 0.0002
+        msgs = [dict(at=t0, log='L1', seg=False, react='silent'),
+                dict(at=round(t_drop + 4.0, 3), log='L2', seg=False, react='ok')]
+        return dict(msgs=msgs, hook='none', stalls=0, drops=0, drop_at=[t_drop], refuse=[1], seed=rng.randrange(10 ** 9),
+                    put_hook=False, order=rng.choice((1, 7)))
     if rng.random() < 0.12:
         # segmented messages on both sides of a reconnect: what the first one left in the correlator (accepted, waiting for
         # receipts; or unanswered) is still there when the next one is segmented on the new connection
@@ -184,6 +193,9 @@ def run(sc):
             s.at(t0 + rng.choice((0.3, 1.0)), lambda: [c.stall(False) for c in s.smsc.conns])
         for _ in range(sc['drops']):
             s.at(round(rng.uniform(1.0, 12.0), 3) + 0.0002, lambda: s.smsc.conns and s.smsc.conns[-1].feed_eof())
+        if sc.get('refuse'):
+            refused = set(sc['refuse'])
+            s.smsc.connect = lambda n: 'refuse' if n in refused else 'ok'
         for t_d in sc.get('drop_at', ()):
             s.at(t_d, lambda: s.smsc.conns and s.smsc.conns[-1].feed_eof())
         if sc.get('unknown'):
@@ -399,6 +411,27 @@ def predicate14(sc, ev):
             t_err = [e[0] for e in ev if e[1] == 'send_error' and e[3] == m['log'] and e[4] == 'TimeoutError']
             if t_put and t_err and t_err[0] - t_put[0] < TTL - 1e-6:
                 return 'message %s reported as timed out %.3f s after it was stored, time-to-live %.1f' % (m['log'], t_err[0] - t_put[0], TTL)
+    # ... and no later than the first request the ESME sends after the time-to-live has elapsed - whatever request that is:
+    # a submit_sm, a keep-alive probe, the bind request of a reconnect, the unbind of stop()
+    if sc.get('hook') == 'none' and not sc.get('put_hook') and not sc.get('stalls'):
+        requests = ('SubmitSm', 'EnquireLink', 'Unbind', 'BindTransceiver', 'BindTransmitter', 'BindReceiver')
+        for m in sc['msgs']:
+            if m['react'] != 'silent' or m['seg']:
+                continue
+            seqs = [q for q, lg in seq_log.items() if lg == m['log']]
+            t_put = [e[0] for e in ev if e[1] == 'put-done' and e[3] in seqs]
+            if not t_put:
+                continue
+            t_exp = t_put[0] + TTL
+            nxt = [e for e in ev if e[1] == 'put-start' and e[0] > t_exp + 1e-6]
+            sent = [e for e in ev if e[1] == 'sending' and e[2] in requests and e[0] > t_exp + 1e-6]
+            t_err = [e[0] for e in ev if e[1] == 'send_error' and e[3] == m['log'] and e[4] == 'TimeoutError']
+            if sent and (not t_err or t_err[0] > sent[0][0] + 1e-3):
+                # the request was written; was it also handed to the correlator (a failed write is not "sent")?
+                done = [e for e in ev if e[1] == 'write' and e[0] >= sent[0][0] - 1e-9 and e[0] <= sent[0][0] + 1e-3]
+                if done:
+                    return ('message %s outlived its time-to-live at %.3f; the next request (%s at %.3f) was sent without the '
+                            'time-out being reported (reported: %s)' % (m['log'], t_exp, sent[0][2], sent[0][0], t_err[:1] or 'never'))
     return None
 
 
